@@ -3,6 +3,7 @@ mod checks;
 mod common;
 mod journal;
 mod sim;
+mod stream;
 
 use sim::explore::{ExploreOpts, explore};
 use sim::monitors::Prop;
@@ -23,6 +24,7 @@ fn main() {
                     checks::check_sim(&prop, &tier)
                 }
                 "C10" | "C11" | "C12" => journal::check(&prop, &tier),
+                "C19" => stream::check(&prop, &tier),
                 "C20" => auth::check(&prop, &tier),
                 _ => {
                     eprintln!("no check registered for {prop}");
